@@ -268,6 +268,14 @@ def literal_docs(draw):
             t = ' '.join(t.split(' ')) if t.strip() == t and '  ' not in t else t.strip().replace('  ', ' ') or 'x'
             if t[0] in '=*.!' or t != t.strip() or not t:
                 t = 'a' + t.strip()
+            # blanks at the edges of a cell are text too (also in the last column, where they end the line)
+            edge = draw(st.integers(0, 5))
+            if edge == 0:
+                t = t + ' '
+            elif edge == 1:
+                t = ' ' + t
+            elif edge == 2:
+                t = ' ' + t + '  '
             c['t'] = c['e'] = t
             c['k'] = 'lit'
     return doc
@@ -296,7 +304,7 @@ def surplus_cases(draw):
     doc = draw(D.documents(D.profile('full', global_comments=False)))
     rows = [i for i, r in enumerate(doc['rows']) if 'c' in r and i > 0]
     row = draw(st.sampled_from(rows))
-    extra = draw(st.lists(st.sampled_from(['4c', '.', '*', '*^', '*v', '*-', '!x', '=1', 'la', '"', '*clefG2']), min_size=1, max_size=3))
+    extra = draw(st.lists(st.sampled_from(['4c', '.', '*', '*^', '*v', '*-', '!x', '=1', 'la', '"', '*clefG2', '', '', ' ']), min_size=1, max_size=3))
     return {'doc': doc, 'surplus': [row, extra], 'src': 'surplus'}
 
 
